@@ -25,7 +25,13 @@ EXTENDS CmdLine
 Clean == [dashSkip |-> FALSE, greedy |-> FALSE, trailingDD |-> FALSE, groupEnvExcl |-> FALSE,
           groupEnvSat |-> FALSE, endLate |-> FALSE]
 
-\* matching state: [w, ended, b];  b = sequence of <<"O"|"A", name, value>>
+\* matching state: [w, ended, ob, ab]
+\*   ob = option bindings: function option key -> sequence of values (Extract always takes the FIRST
+\*        occurrence of an option, so the values of one option are bound in command-line order whatever
+\*        order the elements are matched in; derivations that differ only in that order are one state)
+\*   ab = positional bindings, in order: sequence of <<argument name, token>>
+AddO(ob, o, v) == IF o \in DOMAIN ob THEN [ob EXCEPT ![o] = Append(@, v)] ELSE ob @@ (o :> <<v>>)
+InitState(argv) == [w |-> argv, ended |-> FALSE, ob |-> <<>>, ab |-> <<>>]
 Norm(s) == IF ~s.ended /\ Len(s.w) > 0 /\ IsDD(s.w[1])
            THEN [s EXCEPT !.w = Tail(s.w), !.ended = TRUE] ELSE s
 
@@ -39,7 +45,7 @@ GrpStepFrom(C, keys, s, ex, k) ==
     IF o \in ex THEN GrpStepFrom(C, keys, s, ex, k + 1)
     ELSE LET r == Extract(C.P, o, s.w, C.D.dashSkip) IN
       IF r.ok THEN
-         LET hit == <<[s EXCEPT !.w = r.w, !.b = @ \o <<<<"O", o, r.v>>>>],
+         LET hit == <<[s EXCEPT !.w = r.w, !.ob = AddO(@, o, r.v)],
                       IF C.D.groupEnvExcl /\ o \in C.env THEN ex \cup {o} ELSE ex>> IN
          IF C.D.greedy THEN {hit} ELSE {hit} \cup GrpStepFrom(C, keys, s, ex, k + 1)
       ELSE IF o \in C.env /\ C.D.groupEnvSat THEN
@@ -61,11 +67,11 @@ Match(C, e, s0) ==
      LET s == Norm(s0) IN
      IF Len(s.w) = 0 THEN {}
      ELSE IF ~s.ended /\ StartsDash(s.w[1]) /\ ~IsSingle(s.w[1]) THEN {}
-     ELSE {[s EXCEPT !.w = Tail(s.w), !.b = @ \o <<<<"A", e.a, s.w[1]>>>>]}
+     ELSE {[s EXCEPT !.w = Tail(s.w), !.ab = Append(@, <<e.a, s.w[1]>>)]}
   ELSE IF e.k = "opt" THEN
      LET s == Norm(s0)
          r == IF s.ended \/ Len(s.w) = 0 THEN None ELSE Extract(C.P, e.a, s.w, C.D.dashSkip) IN
-     IF r.ok THEN {[s EXCEPT !.w = r.w, !.b = @ \o <<<<"O", e.a, r.v>>>>]}
+     IF r.ok THEN {[s EXCEPT !.w = r.w, !.ob = AddO(@, e.a, r.v)]}
      ELSE IF e.a \in C.env THEN {s} ELSE {}
   ELSE IF e.k = "grp" THEN
      LET s == Norm(s0) IN
@@ -90,19 +96,20 @@ RepFix(C, e, frontier, seen) ==
   LET nxt == (UNION {Match(C, e, s) : s \in frontier}) \ seen IN
   IF nxt = {} THEN seen ELSE RepFix(C, e, nxt, seen \cup nxt)
 
-\* final states with nothing left; the binding sequences of the accepting derivations
+\* final states with nothing left: the accepting derivations
 Finals(C, ast, argv) ==
-  LET outs == Match(C, ast, [w |-> argv, ended |-> FALSE, b |-> <<>>])
+  LET outs == Match(C, ast, InitState(argv))
       fin == {IF C.D.trailingDD THEN s ELSE Norm(s) : s \in outs} IN
   {x \in fin : Len(x.w) = 0}
 
-Accepting(C, ast, argv) == {s.b : s \in Finals(C, ast, argv)}
+Accepting(C, ast, argv) == {[ob |-> s.ob, ab |-> s.ab] : s \in Finals(C, ast, argv)}
 
 \* binding map of a derivation: per variable <<kind, name>> the sequence of values bound, in order
-VarsOf(b) == {<<b[i][1], b[i][2]>> : i \in 1..Len(b)}
-ValuesOf(b, var) == LET sel == SelectSeq(b, LAMBDA x : <<x[1], x[2]>> = var) IN [i \in 1..Len(sel) |-> sel[i][3]]
-BindMap(b) == [var \in VarsOf(b) |-> ValuesOf(b, var)]
-AccMaps(C, ast, argv) == {BindMap(b) : b \in Accepting(C, ast, argv)}
+ArgNames(d) == {d.ab[i][1] : i \in 1..Len(d.ab)}
+ArgVals(d, a) == LET sel == SelectSeq(d.ab, LAMBDA x : x[1] = a) IN [i \in 1..Len(sel) |-> sel[i][2]]
+BindMap(d) == [var \in ({<<"O", o>> : o \in DOMAIN d.ob} \cup {<<"A", a>> : a \in ArgNames(d)}) |->
+                 IF var[1] = "O" THEN d.ob[var[2]] ELSE ArgVals(d, var[2])]
+AccMaps(C, ast, argv) == {BindMap(d) : d \in Accepting(C, ast, argv)}
 
 \* exclusion (ii): a folded short token carrying "=" after the first letter ("-ab=v")
 IsFoldedEq(t) == Len(t) >= 2 /\ t[1] = Dash /\ t[2] # Dash /\ (\E i \in 4..Len(t) : t[i] = "=") /\ ~(Len(t) >= 3 /\ t[3] = "=")
